@@ -319,6 +319,10 @@ def range_around_float(x, i):
   # last i bits of the precision. So we shift the mantissa left by (52-i) bits, round down
   # (zeroing out remaining i bits), then shift back.
   m, e = math.frexp(x)
+  if e < -1021:
+    # Subnormal floats have fewer than 53 significant bits: they are spaced like the smallest
+    # normal floats, so express x using that exponent.
+    m, e = math.ldexp(m, e + 1021), -1021
   mf = math.floor(math.ldexp(m, 53 - i))
   exp = e + i - 53
   return (math.ldexp(mf, exp), math.ldexp(mf + 1, exp))
